@@ -90,9 +90,12 @@ def run_f(acc):
     srcs, dsts = name_grammar()
     settings = stubs.make_settings()
     for (sk, src), (dk, dst) in itertools.product(srcs, dsts):
-        for status in ('OPEN', 'MERGED', 'DECLINED'):
+        for status in ('OPEN', 'MERGED', 'DECLINED', 'OPEN-dst-gone'):
+            gone = status == 'OPEN-dst-gone'
+            if gone:
+                status = 'OPEN'
             pr = stubs.StubPR(src=src, dst=dst, status=status)
-            repo = stubs.StubGitRepo(remote_branches=[dst])
+            repo = stubs.StubGitRepo(remote_branches=[] if gone else [dst])
             job = stubs.make_job(settings, pr, git_repo=repo)
             touched = None
             try:
@@ -113,10 +116,17 @@ def run_f(acc):
                                        'under test: %s' % err)
                 outcome = 'error:' + type(err).__name__
             acc.evals += 1
-            handled = sk == 'feature' and dk == 'dest' and status != 'MERGED'
+            handled = sk == 'feature' and dk == 'dest' and \
+                status != 'MERGED' and not gone
             unhandled = (sk in ('user', 'hotfix', 'other') or dk == 'nodest'
                          or status == 'MERGED')
-            w = {'f': True, 'src': src, 'dst': dst, 'status': status}
+            w = {'f': True, 'src': src, 'dst': dst, 'status': status,
+                 'destination_exists': not gone}
+            if gone and sk == 'feature' and dk == 'dest':
+                # a handled pair whose destination is gone: telling the
+                # author is fine, the statement is silent
+                acc.count('dont_care_handled_pair_destination_gone')
+                continue
             if sk == 'dest-as-source' and dk == 'dest' and status != 'MERGED':
                 acc.count('dont_care_destination_name_as_source')
                 continue
